@@ -32,6 +32,8 @@ def corpus():
         "run prop=C06 mode=file dur=3000 conc=1 file=c:250:1/250ms;c:250:1/250ms;c:250:1/250ms body=200 trackcleanup=1",
         "run prop=C06 mode=file dur=3000 conc=2 file=c:250:4/250ms;u:200:2;c:200:2/100ms body=180 trackcleanup=1",
         "run prop=C06 mode=constant rate=4/100ms dur=400 conc=3 body=30 failevery=2 trackcleanup=1",
+        "run prop=C06 mode=users conc=2 dur=300 body=2 maxit=15 pushgw=down trackcleanup=1",        # the metrics gateway is down: lifecycle unchanged
+        "run prop=C06 mode=users conc=2 dur=300 body=2 maxit=15 pushgw=fail1 setupcleanups=3",
     ]
 
 
